@@ -84,7 +84,10 @@ constexpr bool kBounded = (SimFrontendOptions::queue_type == quill::QueueType::B
   (SimFrontendOptions::queue_type == quill::QueueType::BoundedDropping);
 constexpr bool kDropping = (SimFrontendOptions::queue_type == quill::QueueType::BoundedDropping) ||
   (SimFrontendOptions::queue_type == quill::QueueType::UnboundedDropping);
-constexpr size_t kCap = kBounded ? SIM_INITIAL_CAP : SIM_MAX_CAP; // the largest buffer a statement may have to fit
+constexpr size_t sim_next_pow2(size_t n) { size_t p = 1; while (p < n) p <<= 1; return p; }
+// the largest buffer a statement may have to fit. A bounded queue rounds the configured capacity up to a power of two (what
+// get_thread_local_queue_capacity() reports): statements between the configured and the real capacity fit too (flavour bb1500)
+constexpr size_t kCap = kBounded ? sim_next_pow2(SIM_INITIAL_CAP) : SIM_MAX_CAP;
 constexpr size_t kInitCap = SIM_INITIAL_CAP;
 constexpr size_t kHeader = 8 + 3 * sizeof(uintptr_t);            // timestamp + metadata + logger + decoder
 // + uint16 worker + uint32 seq + padding: a std::string (4-byte length field) on blocking flavours, a C string (terminator;
@@ -194,7 +197,7 @@ public:
 // model
 // ------------------------------------------------------------------------------------------------------
 enum class OpKind { None, Log, Flush, InitBt, FlushBt, RemoveBlocking, Other };
-enum class SKind { Normal, Backtrace, BadTemplate, BadSpec, Bomb, BtNoInit, MacroStatic, MacroDynamic, Named, NamedBtNoInit, Dynamic, NamedBacktrace, RuntimeMeta, NamedBadSpec };
+enum class SKind { Normal, Backtrace, BadTemplate, BadSpec, Bomb, BtNoInit, MacroStatic, MacroDynamic, Named, NamedBtNoInit, Dynamic, NamedBacktrace, RuntimeMeta, NamedBadSpec, RtBadSpec };
 
 inline bool is_bt_kind(SKind k) { return k == SKind::Backtrace || k == SKind::NamedBacktrace; }
 
@@ -390,6 +393,10 @@ constexpr quill::MacroMetadata kMdDyn{"sim.cpp:32", "f", "{}:{}:{}", nullptr, qu
 constexpr quill::MacroMetadata kMdRuntime{"[placeholder]", "[placeholder]",
                                           "{}:{}:{}" QUILL_MAGIC_SEPARATOR "{}" QUILL_MAGIC_SEPARATOR "{}" QUILL_MAGIC_SEPARATOR "{}", nullptr,
                                           quill::LogLevel::Dynamic, quill::MacroMetadata::Event::LogWithRuntimeMetadata};
+// LOG_RUNTIME_METADATA whose format string does not fit its arguments (":d" for a string)
+constexpr quill::MacroMetadata kMdRuntimeBad{"[placeholder]", "[placeholder]",
+                                             "{}:{}:{:d}" QUILL_MAGIC_SEPARATOR "{}" QUILL_MAGIC_SEPARATOR "{}" QUILL_MAGIC_SEPARATOR "{}", nullptr,
+                                             quill::LogLevel::Dynamic, quill::MacroMetadata::Event::LogWithRuntimeMetadata};
 constexpr quill::MacroMetadata kMdBomb{"sim.cpp:22", "f", "{}{}", nullptr, quill::LogLevel::Info, quill::MacroMetadata::Event::Log};
 
 std::string make_pad(int w, uint32_t seq, uint32_t len)
